@@ -257,7 +257,7 @@ def r_unitconvert(cx):
                     ok = False
                     got = None
                     if e[0] == "bin" and e[1] == op and E.same_elem(e[2], ("proj", inp, ("elem", k)), f, point):
-                        ratio = e[3]
+                        ratio = E.look_through_calls(f, e[3])      # factors handed back by a local helper / struct
                         if ratio[0] == "bin" and ratio[1] == "Mul":
                             ks = []
                             for side in (ratio[2], ratio[3]):
@@ -579,6 +579,12 @@ def r_guard_match_agree(cx):
         dom = [(gb, lit, x) for (gb, lit, x) in guards if f.dominates(gb, b)]
         same = [(gb, lit, x) for (gb, lit, x) in dom if x == scrut]
         ok = bool(same) and any(set(lit) == arms for (_, lit, _) in same)
+        # no belief to check when the fall-through arm yields no axis number at all: it leaves the function (`_ => return
+        # None`) without rejoining the code that uses the number
+        if not ok and not dom:
+            lp = f.innermost_loop(b)
+            if lp is not None and t["otherwise"] not in lp.body:
+                ok = True       # the fall-through arm leaves the loop (and the function): it never yields a number
         why = ""
         if not dom:
             why = "no membership test dominates the match"
